@@ -849,6 +849,23 @@ def stage_survive(ctx):
         axi = cube_root_of(sp) * (1.5 if sp["kind"] == "cylinder" else 1.0)
         cls = "size-limit" if ixxx_of(axi, lam) > 120 else "nonconvergence"
         add(sp, cls)
+    # sizes no particle has: negative or zero semi-axes / diameters / heights / radii (a sampler proposes them when a size
+    # has a Gaussian prior); "any size" includes them: a Python exception is the expected outcome, not a dead interpreter
+    bad = [dict(kind="spheroid", n=[1.5, 0.0], r=[-0.4, 0.6], rotation=[0, 0.4, 0.3]),
+           dict(kind="spheroid", n=[1.5, 0.0], r=[0.4, -0.6], rotation=[0, 0.4, 0.3]),
+           dict(kind="cylinder", n=[1.5, 0.0], d=-0.6, h=0.8, rotation=[0, 0.4, 0.3]),
+           dict(kind="cylinder", n=[1.5, 0.0], d=0.6, h=-0.8, rotation=[0, 0.4, 0.3]),
+           dict(kind="sphere", n=[1.5, 0.0], r=-0.5), dict(kind="sphere", n=[1.5, 0.0], r=0.0),
+           dict(kind="spheroid", n=[1.5, 0.0], r=[0.0, 0.6], rotation=[0, 0.4, 0.3]),
+           dict(kind="cylinder", n=[1.5, 0.0], d=0.6, h=0.0, rotation=[0, 0.4, 0.3])]
+    for k in range(ctx.n(len(bad), 24)):
+        if k < len(bad):
+            sp = bad[k]
+        else:
+            sg = lambda: rng.choice([-1, 1, -1, 0]) * rng.uniform(0.05, 3.0)   # noqa
+            sp = rng.choice([dict(kind="spheroid", n=[1.5, 0.0], r=[sg(), sg()], rotation=[gen_angle(rng)] * 3),
+                             dict(kind="cylinder", n=[1.5, 0.0], d=sg(), h=sg(), rotation=[gen_angle(rng)] * 3)])
+        add(sp, "bad-size")
     # detector angles given in spherical coordinates (calc_scat_matrix): azimuth outside [0, 2 pi),
     # polar angle outside [0, pi]
     for k in range(ctx.n(6, 30)):
@@ -865,7 +882,8 @@ def stage_survive(ctx):
         ctx.nontriv(("survive", m["cls"], m["scat"]["kind"], oc))
         if oc == "died":
             key = {"euler-angle-guard": "stop:euler-angle-guard", "size-limit": "stop:size-limit",
-                   "nonconvergence": "stop:nonconvergence", "detector-angle-guard": "stop:detector-angle-guard"}.get(
+                   "nonconvergence": "stop:nonconvergence", "detector-angle-guard": "stop:detector-angle-guard",
+                   "bad-size": "stop:negative-size"}.get(
                        m["cls"], "stop:other:" + m["cls"])
             ctx.violation(key, "the interpreter was terminated (exit status %s, Fortran STOP) by a T-matrix calculation: %s %s"
                           % (r.get("rc"), m["cls"], json.dumps({k: v for k, v in m["scat"].items() if k != "center"})),
